@@ -310,6 +310,13 @@ func TestVerif_C09(t *testing.T) {
 		}
 		closeNode()
 	}
+	// the key vector and threshold a running node uses after a removal stamped a little ahead of its clock must be the
+	// ones of a node set up later from the same records (a removed node's key must not stay in the set)
+	verifAheadOfClock(t, r, "c09k", "C09|key-set|running-node-differs-from-a-node-set-up-later", func(f *verifFeed, q uint64) string {
+		ch := f.chain(f.net.NodeIds[len(f.net.NodeIds)-1])
+		ids, _ := ch.ConsensusKeys(1, q)
+		return fmt.Sprintf("%v|T%d", ids, f.node.ConsensusThreshold(q, true))
+	})
 	r.Note("accepted_certificates", accepted)
 	r.Note("rejected_certificates", rejected)
 	if accepted < 20 {
